@@ -27,8 +27,11 @@ root; the outcome must be what the in-root reference resolution over the tree
 TemplateNotFound.  Names with a ".." segment must give TemplateNotFound and
 nothing else.
 
-Part 2 (compositions).  ChoiceLoader / PrefixLoader trees over <= 3
-DictLoaders, every assignment of a small name set to the leaves, every query
+Part 2 (compositions).  ChoiceLoader / PrefixLoader trees over <= 3 leaf
+loaders (DictLoader, FunctionLoader returning a str, FunctionLoader returning
+a (source, filename, uptodate) triple; four kind vectors so every leaf
+position sees every kind), every assignment of a small name set to the leaves
+with no / each single / all sources being the EMPTY string, every query
 name over {p, q, x}: both `get_source` and `load` (ChoiceLoader and
 PrefixLoader override both) must resolve to the first loader that has the name
 and raise TemplateNotFound exactly when none has it; PrefixLoader splits on
@@ -52,7 +55,7 @@ META = {
     "percent-encoding, NUL, non-ASCII), with/without leading '/', plus explicit sentinel spellings, on 12 "
     "FileSystemLoader and 3 PackageLoader setups: no file outside the search roots is ever opened, the result is the "
     "file the in-root resolution finds or TemplateNotFound, parent references only ever give TemplateNotFound. All "
-    "ChoiceLoader/PrefixLoader trees from a list of 17 shapes over <= 3 DictLoaders x all leaf contents x all query "
+    "ChoiceLoader/PrefixLoader trees from a list of 17 shapes over <= 3 Dict/Function loaders x all leaf contents (incl. empty-string sources) x all query "
     "names: first loader wins, TemplateNotFound iff none has the name, prefix split at the first delimiter (single- and multi-character delimiters, the remainder starts after the whole delimiter), for both "
     "get_source and load.",
     "note": "POSIX only (os.sep='/', os.altsep=None: the backslash and drive fragments are ordinary characters here); "
@@ -411,14 +414,31 @@ def leaf_count(tree):
     return max(leaf_count(c) for _k, c in tree[1])
 
 
-def build_loader(tree, leaves):
+KIND_VECTORS = (("D", "D", "D"), ("D", "F", "T"), ("F", "T", "D"), ("T", "D", "F"))
+
+
+def build_leaf(kind, mapping):
+    """D: DictLoader; F: FunctionLoader returning the source str (or None); T: FunctionLoader returning the
+    (source, filename, uptodate) triple (or None).  An EMPTY source "" is a legal template."""
+    import jinja2
+
+    if kind == "D":
+        return jinja2.DictLoader(mapping)
+    if kind == "F":
+        return jinja2.FunctionLoader(lambda name: mapping.get(name))
+    if kind == "T":
+        return jinja2.FunctionLoader(lambda name: (mapping[name], None, lambda: True) if name in mapping else None)
+    raise AssertionError(kind)
+
+
+def build_loader(tree, leaves, kinds=KIND_VECTORS[0]):
     import jinja2
 
     if tree[0] == "D":
-        return jinja2.DictLoader(leaves[tree[1]])
+        return build_leaf(kinds[tree[1]], leaves[tree[1]])
     if tree[0] == "C":
-        return jinja2.ChoiceLoader([build_loader(c, leaves) for c in tree[1]])
-    return jinja2.PrefixLoader({k: build_loader(c, leaves) for k, c in tree[1]}, delimiter=tree[2])
+        return jinja2.ChoiceLoader([build_loader(c, leaves, kinds) for c in tree[1]])
+    return jinja2.PrefixLoader({k: build_loader(c, leaves, kinds) for k, c in tree[1]}, delimiter=tree[2])
 
 
 def ref_compose(tree, name, leaves):
@@ -463,12 +483,12 @@ def queries(leafnames):
     return out + QUERY_EDGE
 
 
-def _compose_script(tree, leaves, name):
+def _compose_script(tree, leaves, name, kinds=KIND_VECTORS[0]):
     return (
         "import jinja2\nfrom checks import c28\n"
-        f"tree, leaves, name = {tree!r}, {leaves!r}, {name!r}\n"
-        "print(c28.tree_repr(tree), 'with', leaves)\n"
-        "loader = c28.build_loader(tree, leaves); env = jinja2.Environment(loader=loader, cache_size=0)\n"
+        f"tree, leaves, name, kinds = {tree!r}, {leaves!r}, {name!r}, {kinds!r}\n"
+        "print(c28.tree_repr(tree), 'with leaf contents', leaves, 'leaf loader kinds (D=DictLoader, F=FunctionLoader->str, T=FunctionLoader->triple)', kinds)\n"
+        "loader = c28.build_loader(tree, leaves, kinds); env = jinja2.Environment(loader=loader, cache_size=0)\n"
         "for what, f in (('get_source', lambda: loader.get_source(env, name)[0]), ('get_template', lambda: env.get_template(name).render())):\n"
         "    try: print(what, repr(name), '->', repr(f()))\n"
         "    except Exception as e: print(what, repr(name), 'raised', type(e).__name__, e)\n"
@@ -485,9 +505,11 @@ def compose_shard(arg):
     tree = SHAPES[si]
     kind = tree_kind(tree)
     qs = queries(leafnames)
-    for asg in assignments:
-        leaves = [{n: "D%d has %s" % (i, n) for n in names} for i, names in enumerate(asg)]
-        loader = build_loader(tree, leaves)
+    nleaves = leaf_count(tree)
+    for asg, empties, kinds in ((a, e, k) for a in assignments for e in empty_variants(a) for k in KIND_VECTORS):
+        kinds = kinds[:nleaves]
+        leaves = [{n: ("" if (i, n) in empties else "D%d has %s" % (i, n)) for n in names} for i, names in enumerate(asg)]
+        loader = build_loader(tree, leaves, kinds)
         env = jinja2.Environment(loader=loader, cache_size=0)
         p.count("compositions", 1)
         for name in qs:
@@ -516,12 +538,21 @@ def compose_shard(arg):
                     bad = "wrong-loader"
                 if bad:
                     p.violation(f"C28/compose/{kind}/{bad}/{what}", {
-                        "msg": f"{tree_repr(tree)} leaves={leaves} {what}({name!r}): got {got!r}, reference {ref!r}",
-                        "script": _compose_script(tree, leaves, name)})
+                        "msg": f"{tree_repr(tree)} leaves={leaves} leaf kinds={kinds} {what}({name!r}): got {got!r}, reference {ref!r}",
+                        "script": _compose_script(tree, leaves, name, kinds)})
             if ref is not None:
-                p.sig(("compose", si, name, ref[:2]))
+                p.sig(("compose", si, name, ref[:2] or "empty"))
                 p.sample({"composition": tree_repr(tree), "leaves": leaves, "name": name, "resolves_to": ref}, cap=1)
     return p
+
+
+def empty_variants(asg):
+    """which (leaf, name) sources are the empty string: none, each single one, all of them"""
+    pairs = [(i, n) for i, names in enumerate(asg) for n in names]
+    out = [frozenset()] + [frozenset([pr]) for pr in pairs]
+    if len(pairs) > 1:
+        out.append(frozenset(pairs))
+    return out
 
 
 def all_assignments(nleaves, leafnames):
@@ -569,11 +600,13 @@ def run(ctx: core.Ctx):
     cshards = []
     for si, tree in enumerate(SHAPES):
         asg = all_assignments(leaf_count(tree), leafnames)
-        cshards += [(si, leafnames, c) for c in chunks(asg, 4)]
+        cshards += [(si, leafnames, c) for c in chunks(asg, 8 if ctx.quick else 32)]
     ctx.pmap(compose_shard, cshards)
     ctx.cov["bounds"] = {
         "max_segments": maxseg, "alphabet": [repr(s) for s in SEGS], "names_per_setup": 2 * sum(len(SEGS) ** k for k in range(1, maxseg + 1)),
         "extra_names_per_setup": len(extra_names(base)), "setups": [repr(s) for s in setups],
         "composition_shapes": [tree_repr(t) for t in SHAPES], "leaf_names": list(leafnames),
+        "leaf_loader_kinds": ["".join(k) for k in KIND_VECTORS] + ["D=DictLoader F=FunctionLoader->str T=FunctionLoader->triple"],
+        "empty_sources": "none / each single (leaf, name) / all",
         "query_names": len(queries(leafnames)), "compositions": ctx.counters.get("compositions", 0),
     }
